@@ -281,6 +281,19 @@ impl Report {
     }
 }
 
+/// Before a case is executed its lines are written next to the report (`<out>.current`): if the
+/// process dies while the real code runs (an abort, a crash) `./check` still has the input.
+pub fn mark_current(lines: &[String]) {
+    static PATH: std::sync::OnceLock<Option<String>> = std::sync::OnceLock::new();
+    let p = PATH.get_or_init(|| {
+        let a: Vec<String> = std::env::args().collect();
+        a.iter().position(|x| x == "--out").and_then(|i| a.get(i + 1).cloned()).filter(|o| o != "-").map(|o| format!("{}.current", o))
+    });
+    if let Some(p) = p {
+        let _ = std::fs::write(p, lines.join("\n"));
+    }
+}
+
 /// `--key value` command-line options
 pub struct Args(pub Vec<String>);
 impl Args {
